@@ -599,6 +599,7 @@ package main
 //@   assert before Close: [whyClose] !PeerRuns(p.cfg.NodeSelectors, c.nodeLabels)
 //@   assert before NewSession: [whyOpen] PeerRuns(p.cfg.NodeSelectors, c.nodeLabels) && p.session == nil
 //@   assert before NewSession: [params] arg1.SessionName == p.cfg.Name && arg1.PeerASN == p.cfg.ASN && arg1.MyASN == p.cfg.MyASN && arg1.CurrentNode == c.myNode && arg1.PeerPort == p.cfg.Port && arg1.VRFName == p.cfg.VRF
+//@   exit assert [republished] needUpdateAds ==> called(updateAds)
 //@   ensures [onlyRunnable] forall k int :: 0 <= k && k < len(c.peers) && !PeerRuns(c.peers[k].cfg.NodeSelectors, c.nodeLabels) ==> c.peers[k].session == nil
 //@   loop 1 binds p
 //@   loop 1 invariant forall k int :: 0 <= k && k < len(c.peers) ==> c.peers[k] != nil && c.peers[k].cfg != nil
